@@ -13,7 +13,7 @@ Group 1 (anneal, tabu_search, lns, alns, evolve, differential_evolution, particl
     <solver>:worse-than-evaluated-candidate objective at least as good as every value the proxy recorded (exact)
     <solver>:evaluations-count              Result.evaluations == number of proxy calls
     <solver>:outside-bounds                 DE / PSO / bayesian_opt: lo <= x_i <= hi
-    <solver>:not-reproducible               same input twice => same (solution, objective, iterations, evaluations)
+    <solver>:not-reproducible               same input objects twice => same (solution, objective, iterations, evaluations)
     <solver>:mirror-solution / :mirror-objective / :mirror-iterations   (-f, not minimize, same seeds)
 Group 2 (powell, bfgs, lbfgs with objective_fn): objective-not-f(solution) and not-reproducible only.
 """
@@ -49,6 +49,12 @@ META = {
         "leads from the path's end to a state that aspirates while a non-tabu label leads to a still better dead end / "
         "descent / random). Vector objectives include linear (monotone) ones; bayesian_opt: dimension 2-3 in 90%, ei/ucb, "
         "acq_restarts 1 (60%), 2, 3 or default, ~45% linear objectives, <= 9 objective calls per run. "
+        "Bounds of DE / PSO / powell have one or more fixed variables (lo == hi) in ~20% of the bounded cases (not "
+        "bayesian_opt: its kernel divides by hi-lo). All input objects of a case (adjacency tables returned as the stored "
+        "list objects, populations, operator and weight lists, start vectors, bounds) are built once and handed to all "
+        "three runs; tabu neighbourhoods come as stored lists / dict.get / fresh lists / tuples, values from 2-3 distinct "
+        "ints in part of the graph cases; half of the simulated_annealing lns/alns cases are 100-300 step walks with "
+        "local +-1 moves and a cooling temperature of the size of the objective differences. "
         "Non-trivial = in the proxy log a strictly worse value is recorded after the first occurrence of the best value "
         "(best != last). Distinct = canonical JSON of the case."
     ),
@@ -459,8 +465,10 @@ def group1(name, ctx, desc, f, call, valid_point, starts=(), bounds=None):
             f"{name}:not-reproducible",
             {"first": [_pt(res.solution), obj, res.iterations, res.evaluations], "second": [_pt(res2.solution), res2.objective, res2.iterations, res2.evaluations]},
         )
-    if rec2.log != log and not all(_same_point(p, q) and _eq(v, w) for (p, v), (q, w) in zip(log, rec2.log)):
-        raise Violation(f"{name}:not-reproducible", {"what": "same result but a different sequence of evaluated points"})
+    # measured, not asserted: the statement is about the Result; a repeat run that reaches the same Result through a
+    # different sequence of objective calls (e.g. because an argument was reordered in place) is only labelled
+    if rec2.log != log and not (len(rec2.log) == len(log) and all(_same_point(p, q) and _eq(v, w) for (p, v), (q, w) in zip(log, rec2.log))):
+        ctx.label("repeat-run-different-call-sequence")
 
     # mirror image: (-f, not minimize), same seeds
     rec3 = Rec(f, neg=True)
@@ -527,12 +535,21 @@ def mk_neighbor(space, nb, rng):
     return _mine(neighbor)
 
 
-def mk_tabu_neighbors(space, nb, rng):
-    """tabu: all (digit, delta) moves, optionally thinned by the callback rng; move = (pos, delta) | pos | target."""
+def mk_tabu_neighbors(space, nb, rng, store=None):
+    """tabu: all (digit, delta) moves, optionally thinned by the callback rng; move = (pos, delta) | pos | target.
+    With `store` (a dict that lives as long as the case, nb['stored']) the neighbour lists are kept in an adjacency
+    table and the very same list objects are handed out on every call and in every run of the case."""
     k, m, deltas, wrap = space["k"], space["m"], nb["deltas"], nb["wrap"]
     keep, mk, dead = nb["keep"], nb["move"], nb["dead"]
 
     def neighbors(s):
+        if store is not None:
+            if s not in store:
+                store[s] = compute(s)
+            return store[s]
+        return compute(s)
+
+    def compute(s):
         if dead and sum(s) % dead == dead - 1:
             return []
         out = []
@@ -551,34 +568,39 @@ def mk_tabu_neighbors(space, nb, rng):
 
 
 def mk_destroy(space, op, own):
-    """lns: blank `n` digits (positions from the solver's rng, or from the callback rng when op['own'])."""
-    k, n = space["k"], min(op["n"], space["k"])
+    """lns: blank `n` digits (positions from the solver's rng, or from the callback rng when op['own']).  A blank is
+    None, or -(old digit + 1) when op['keep'] (the partial solution remembers what was removed, so that a repair can
+    make a local move)."""
+    k, n, keep = space["k"], min(op["n"], space["k"]), op.get("keep", False)
 
     def destroy(s, rng):
         r = own if op["own"] else rng
         t = list(s)
         for pos in r.sample(range(k), n):
-            t[pos] = None
+            t[pos] = -(t[pos] + 1) if keep else None
         return tuple(t)
 
     return _mine(destroy)
 
 
 def mk_repair(space, op, own):
-    """lns: fill the blanks at random (mode 0), with a fixed digit (1) or with the digit to the left + 1 (2)."""
+    """lns: fill the blanks at random (mode 0), with a fixed digit (1), with the digit to the left + 1 (2) or with the
+    removed digit +-1 (3: a local move; needs a destroy operator that keeps the old digit, otherwise like mode 0)."""
     m, mode, fill = space["m"], op["mode"], op["fill"] % space["m"]
 
     def repair(p, rng):
         r = own if op["own"] else rng
         t = list(p)
         for i, v in enumerate(t):
-            if v is None:
-                if mode == 0:
+            if v is None or v < 0:
+                if mode == 3 and v is not None:
+                    t[i] = (-v - 1 + (1 if r.random() < 0.5 else -1)) % m
+                elif mode == 0 or mode == 3:
                     t[i] = r.randrange(m)
                 elif mode == 1:
                     t[i] = fill
                 else:
-                    left = t[i - 1] if i and t[i - 1] is not None else fill
+                    left = t[i - 1] if i else fill
                     t[i] = (left + 1) % m
         return tuple(t)
 
@@ -771,12 +793,20 @@ def vec_obj(draw, d, kinds=("sphere", "abs", "step", "rast", "vtable", "linear")
 
 
 @st.composite
-def bounds_st(draw, d):
+def bounds_st(draw, d, fixed_pct=20):
+    """lo < hi dyadic; in fixed_pct% of the cases one or more variables are fixed (lo == hi; the last one in 2/3 of
+    them).  fixed_pct=0 for bayesian_opt, whose kernel length scale (hi-lo)/2 divides by zero there (DESIGN 5)."""
     out = []
     for _ in range(d):
         lo = draw(dy(-6, 4))
         w = draw(st.integers(1, 64)) / 8
         out.append([lo, lo + w])
+    if fixed_pct and _chance(draw, fixed_pct):
+        fixed = [i for i in range(d) if draw(st.booleans())]
+        if not fixed or draw(st.sampled_from([True, True, False])):
+            fixed.append(d - 1)
+        for i in set(fixed):
+            out[i][1] = out[i][0]
     return out
 
 
@@ -886,6 +916,7 @@ def tabu_cases(draw, tier="quick"):
             "move": draw(st.sampled_from([0, 0, 1, 2])),
             "dead": draw(st.sampled_from([0, 0, 0, 0, 5, 7])),
             "as_list": draw(st.booleans()),
+            "stored": _chance(draw, 40),  # stored adjacency table: forces keep = 8 and lists (see run_tabu)
         },
         "cb_seed": draw(SEED),
         "minimize": not _chance(draw, 50),
@@ -904,6 +935,11 @@ def run_tabu(desc, ctx):
     space = desc["space"]
     f = build_disc(desc["obj"])
     start = tuple(desc["initial"])
+    nb = dict(desc["nb"])
+    store = None
+    if nb.get("stored"):
+        nb.update(keep=8, as_list=True)
+        store = {}  # built once per case: all three runs get the same stored list objects
 
     def call(objective, minimize):
         rng = random.Random(desc["cb_seed"])
@@ -912,7 +948,7 @@ def run_tabu(desc, ctx):
             tabu_search,
             start,
             objective,
-            mk_tabu_neighbors(space, desc["nb"], rng),
+            mk_tabu_neighbors(space, nb, rng, store),
             minimize=minimize,
             cooldown=desc["cooldown"],
             max_iter=desc["max_iter"],
@@ -923,7 +959,7 @@ def run_tabu(desc, ctx):
         )
         return res, ps
 
-    ctx.label("move-kind-%d" % desc["nb"]["move"], desc["nb"]["dead"] and "dead-states")
+    ctx.label("move-kind-%d" % desc["nb"]["move"], desc["nb"]["dead"] and "dead-states", store is not None and "stored-adjacency")
     group1("tabu_search", ctx, desc, f, call, _valid_state(space), starts=[start])
 
 
@@ -1000,8 +1036,10 @@ def tabu_graph_cases(draw, tier="quick"):
     minimize = not _chance(draw, 50)
     vals = [0] * n
     adj2 = [[] for _ in range(n)]
+    ties = 0 if family == "trap" else draw(st.sampled_from([0, 2, 3, 3]))  # values from 2-3 distinct ints
     for v in range(n):
-        vals[perm[v]] = (rank[v] if minimize else -rank[v]) * step + off
+        r = rank[v] % ties if ties else rank[v]
+        vals[perm[v]] = (r if minimize else -r) * step + off
         adj2[perm[v]] = [[l, perm[t]] for l, t in adj[v]]
     for v in range(n):
         if len(adj2[v]) > 1:
@@ -1015,6 +1053,8 @@ def tabu_graph_cases(draw, tier="quick"):
         "obj": obj,
         "callable": draw(CALLABLE),
         "adj": adj2,
+        "nbr": draw(st.sampled_from(["stored", "dict-get", "stored", "fresh", "tuple"])),
+        "ties": ties,
         "start": perm[start],
         "scheme": scheme,
         "minimize": minimize,
@@ -1034,8 +1074,18 @@ def run_tabu_graph(desc, ctx):
     f = _mine(lambda s: fin(s[0]))
     start = (desc["start"],)
 
-    def neighbors(s):
-        return [(_graph_label(scheme, l), (t,)) for l, t in adj[s[0]]]
+    # the adjacency table is built once per case; 'stored' / 'dict-get' hand out the stored list objects themselves
+    # (dict-get: the callback is the bound method NBRS.get), 'fresh' copies, 'tuple' returns tuples
+    nbr = desc.get("nbr", "fresh")
+    table = {(v,): [(_graph_label(scheme, l), (t,)) for l, t in adj[v]] for v in range(n)}
+    if nbr == "dict-get":
+        neighbors = table.get
+    elif nbr == "stored":
+        neighbors = _mine(lambda s: table[s])
+    elif nbr == "tuple":
+        neighbors = _mine(lambda s: tuple(table[s]))
+    else:
+        neighbors = _mine(lambda s: list(table[s]))
 
     def valid(s):
         return isinstance(s, tuple) and len(s) == 1 and isinstance(s[0], int) and 0 <= s[0] < n
@@ -1046,7 +1096,7 @@ def run_tabu_graph(desc, ctx):
             tabu_search,
             start,
             objective,
-            _mine(neighbors),
+            neighbors,
             minimize=minimize,
             cooldown=desc["cooldown"],
             max_iter=desc["max_iter"],
@@ -1058,6 +1108,7 @@ def run_tabu_graph(desc, ctx):
         return res, ps
 
     dead = sum(1 for a in adj if not a)
+    ctx.label("neighbours-" + nbr, desc.get("ties") and "ties-%d-values" % desc["ties"])
     ctx.label("family-" + desc["family"], "labels-scheme-%d" % scheme, dead and "dead-ends", "dead-ends>=n/3" if 3 * dead >= n else None)
     ctx.size("tabu_graph.states", n)
     group1("tabu_search", ctx, desc, f, call, valid, starts=[start])
@@ -1071,6 +1122,13 @@ def run_tabu_graph(desc, ctx):
 LNS_COIN_ACCEPT = True
 
 
+# simulated-annealing acceptance: temperatures on the scale of the objective differences (0.25..8, dyadic) and far above
+# it, cooling from abrupt to none - many distinct (start_temp, cooling_rate) pairs, so that the acceptance decisions of
+# two runs are compared on schedules that really cool during the run (objective differences range from 1 to ~100)
+START_TEMP = st.one_of(dy(0.25, 8), st.integers(1, 64).map(float), st.integers(1, 64).map(float), st.sampled_from([0.5, 5.0, 100.0]))
+COOLING_RATE = st.sampled_from([0.5, 0.7, 0.8, 0.9, 0.9, 0.95, 0.95, 0.99, 0.9995])
+
+
 def accept_st(coin):
     opts = ["improving", "accept_all", "simulated_annealing", "simulated_annealing", "improving", "accept_all"]
     opts += [{"thr": 0}, {"thr": 0.5}, {"thr": 2.5}]
@@ -1081,19 +1139,19 @@ def accept_st(coin):
 
 @st.composite
 def destroy_op(draw):
-    return {"n": draw(st.integers(1, 4)), "own": draw(st.booleans())}
+    return {"n": draw(st.integers(1, 4)), "own": draw(st.booleans()), "keep": _chance(draw, 35)}
 
 
 @st.composite
 def repair_op(draw):
-    return {"mode": draw(st.sampled_from([0, 0, 1, 2])), "fill": draw(st.integers(0, 7)), "own": draw(st.booleans())}
+    return {"mode": draw(st.sampled_from([0, 0, 1, 2, 3, 3])), "fill": draw(st.integers(0, 7)), "own": draw(st.booleans())}
 
 
 @st.composite
 def lns_cases(draw, tier="quick"):
     space, obj = draw(disc_space(tier))
     max_iter = _iters(draw, 60 if tier == "quick" else 200)
-    return {
+    d = {
         "space": space,
         "obj": obj,
         "initial": draw(state_st(space)),
@@ -1103,13 +1161,33 @@ def lns_cases(draw, tier="quick"):
         "minimize": not _chance(draw, 50),
         "callable": draw(CALLABLE),
         "accept": draw(accept_st(LNS_COIN_ACCEPT)),
-        "start_temp": draw(st.sampled_from([0.5, 5.0, 100.0])),
-        "cooling_rate": draw(st.sampled_from([0.5, 0.9, 0.9995])),
+        "start_temp": draw(START_TEMP),
+        "cooling_rate": draw(COOLING_RATE),
         "max_iter": max_iter,
         "max_no_improve": _iters(draw, 60),
         "seed": draw(SEED),
         "progress": draw(progress_st(max_iter)),
     }
+    return _sa_walk(draw, d, tier, [d["destroy"]], [d["repair"]])
+
+
+def _sa_walk(draw, d, tier, destroy_ops, repair_ops):
+    """Half of the simulated_annealing cases become long annealing walks (like a user's real run): 100-300
+    iterations without a no-improvement or on_progress stop, local +-1 moves, a temperature of the size of the objective
+    differences that cools noticeably during the run - so dozens of uphill acceptance decisions are taken and a
+    schedule that is off (e.g. carried over from an earlier call) shows in the Result."""
+    if d["accept"] == "simulated_annealing" and _chance(draw, 50):
+        d["sa_walk"] = True
+        d["max_iter"] = 100 + (draw(st.integers(0, 9999)) * 37) % (201 if tier == "quick" else 401)
+        d["max_no_improve"] = d["max_iter"]
+        d["progress"] = None
+        d["start_temp"] = draw(st.sampled_from([1.0, 2.0, 3.0, 5.0, 8.0, 13.0, 21.0])) + draw(st.integers(0, 7)) / 8
+        d["cooling_rate"] = draw(st.sampled_from([0.9, 0.95, 0.97, 0.98, 0.99]))
+        for op in destroy_ops:  # local moves: one or two digits change by +-1, so the walk depends on what was accepted
+            op["n"], op["keep"] = min(op["n"], 2), True
+        for op in repair_ops:
+            op["mode"] = 3
+    return d
 
 
 def _accept_label(acc):
@@ -1123,15 +1201,19 @@ def run_lns(desc, ctx):
     f = build_disc(desc["obj"])
     start = tuple(desc["initial"])
 
+    # operators are built once per case and reused by all three runs; their own rng is re-seeded per run
+    own = random.Random()
+    destroy, repair = mk_destroy(space, desc["destroy"], own), mk_repair(space, desc["repair"], own)
+
     def call(objective, minimize):
-        own = random.Random(desc["cb_seed"])
+        own.seed(desc["cb_seed"])
         cb, interval, ps = mk_progress(desc["progress"])
         res = ctx.call(
             lns,
             start,
             objective,
-            mk_destroy(space, desc["destroy"], own),
-            mk_repair(space, desc["repair"], own),
+            destroy,
+            repair,
             minimize=minimize,
             accept=mk_accept(desc["accept"]),
             start_temp=desc["start_temp"],
@@ -1144,7 +1226,7 @@ def run_lns(desc, ctx):
         )
         return res, ps
 
-    ctx.label(_accept_label(desc["accept"]))
+    ctx.label(_accept_label(desc["accept"]), desc.get("sa_walk") and "sa-long-walk")
     group1("lns", ctx, desc, f, call, _valid_state(space), starts=[start])
 
 
@@ -1156,7 +1238,7 @@ def alns_cases(draw, tier="quick"):
     rops = draw(st.lists(repair_op(), min_size=1, max_size=3))
     weights = draw(st.booleans())
     scores = draw(st.sampled_from([None, None, [3.0, 2.0, 1.0], [0.0, 0.0, 0.0], [1.0, 5.0, 0.5]]))
-    return {
+    d = {
         "space": space,
         "obj": obj,
         "initial": draw(state_st(space)),
@@ -1168,8 +1250,8 @@ def alns_cases(draw, tier="quick"):
         "minimize": not _chance(draw, 50),
         "callable": draw(CALLABLE),
         "accept": draw(accept_st(True)),
-        "start_temp": draw(st.sampled_from([0.5, 5.0, 100.0])),
-        "cooling_rate": draw(st.sampled_from([0.5, 0.9, 0.9995])),
+        "start_temp": draw(START_TEMP),
+        "cooling_rate": draw(COOLING_RATE),
         "segment_size": draw(st.integers(1, 10)),
         "reaction_factor": draw(st.sampled_from([0.0, 0.1, 0.5, 1.0])),
         "scores": scores,
@@ -1178,6 +1260,7 @@ def alns_cases(draw, tier="quick"):
         "seed": draw(SEED),
         "progress": draw(progress_st(max_iter)),
     }
+    return _sa_walk(draw, d, tier, d["destroy_ops"], d["repair_ops"])
 
 
 def run_alns(desc, ctx):
@@ -1187,8 +1270,15 @@ def run_alns(desc, ctx):
     f = build_disc(desc["obj"])
     start = tuple(desc["initial"])
 
+    # operator and weight lists are built once per case and handed, as the same objects, to all three runs
+    own = random.Random()
+    dops = [mk_destroy(space, op, own) for op in desc["destroy_ops"]]
+    rops = [mk_repair(space, op, own) for op in desc["repair_ops"]]
+    dw = list(desc["destroy_weights"]) if desc["destroy_weights"] else None
+    rw = list(desc["repair_weights"]) if desc["repair_weights"] else None
+
     def call(objective, minimize):
-        own = random.Random(desc["cb_seed"])
+        own.seed(desc["cb_seed"])
         cb, interval, ps = mk_progress(desc["progress"])
         kw = {}
         if desc["scores"]:
@@ -1197,16 +1287,16 @@ def run_alns(desc, ctx):
             alns,
             start,
             objective,
-            [mk_destroy(space, op, own) for op in desc["destroy_ops"]],
-            [mk_repair(space, op, own) for op in desc["repair_ops"]],
+            dops,
+            rops,
             minimize=minimize,
             accept=mk_accept(desc["accept"]),
             start_temp=desc["start_temp"],
             cooling_rate=desc["cooling_rate"],
             segment_size=desc["segment_size"],
             reaction_factor=desc["reaction_factor"],
-            destroy_weights=desc["destroy_weights"],
-            repair_weights=desc["repair_weights"],
+            destroy_weights=dw,
+            repair_weights=rw,
             max_iter=desc["max_iter"],
             max_no_improve=desc["max_no_improve"],
             seed=desc["seed"],
@@ -1216,6 +1306,7 @@ def run_alns(desc, ctx):
         )
         return res, ps
 
+    ctx.label(desc.get("sa_walk") and "sa-long-walk")
     ctx.label(_accept_label(desc["accept"]), "ops-%dx%d" % (len(desc["destroy_ops"]), len(desc["repair_ops"])))
     group1("alns", ctx, desc, f, call, _valid_state(space), starts=[start])
 
@@ -1258,7 +1349,7 @@ def run_evolve(desc, ctx):
         res = ctx.call(
             evolve,
             objective,
-            list(pop),
+            pop,  # the same list object in all three runs
             mk_crossover(space, desc["crossover"], rng),
             mk_mutate(space, desc["mutate"], rng),
             minimize=minimize,
@@ -1317,13 +1408,14 @@ def run_de(desc, ctx):
     f, _ = build_vec(desc["obj"])
     bounds = [tuple(b) for b in desc["bounds"]]
     init = desc["initial_population"]
+    init_obj = [list(p) for p in init] if init is not None else None  # built once, shared by all three runs
 
     def call(objective, minimize):
         cb, interval, ps = mk_progress(desc["progress"])
         res = ctx.call(
             differential_evolution,
             objective,
-            list(bounds),
+            bounds,
             minimize=minimize,
             population_size=desc["population_size"],
             mutation=desc["mutation"],
@@ -1332,7 +1424,7 @@ def run_de(desc, ctx):
             max_iter=desc["max_iter"],
             tol=desc["tol"],
             seed=desc["seed"],
-            initial_population=[list(p) for p in init] if init is not None else None,
+            initial_population=init_obj,
             on_progress=cb,
             progress_interval=interval,
         )
@@ -1377,13 +1469,14 @@ def run_pso(desc, ctx):
     f, _ = build_vec(desc["obj"])
     bounds = [tuple(b) for b in desc["bounds"]]
     init = desc["initial_positions"]
+    init_obj = [list(p) for p in init] if init is not None else None  # built once, shared by all three runs
 
     def call(objective, minimize):
         cb, interval, ps = mk_progress(desc["progress"])
         res = ctx.call(
             particle_swarm,
             objective,
-            list(bounds),
+            bounds,
             minimize=minimize,
             n_particles=desc["n_particles"],
             max_iter=desc["max_iter"],
@@ -1393,7 +1486,7 @@ def run_pso(desc, ctx):
             social=desc["social"],
             v_max=desc["v_max"],
             seed=desc["seed"],
-            initial_positions=[list(p) for p in init] if init is not None else None,
+            initial_positions=init_obj,
             on_progress=cb,
             progress_interval=interval,
         )
@@ -1433,7 +1526,7 @@ def run_nm(desc, ctx):
         res = ctx.call(
             nelder_mead,
             objective,
-            list(x0),
+            x0,
             minimize=minimize,
             max_iter=desc["max_iter"],
             tol=desc["tol"],
@@ -1465,7 +1558,7 @@ def bayes_cases(draw, tier="quick"):
     kinds = ("linear", "linear", "linear", "linear", "linear", "sphere", "sphere", "abs", "step", "rast", "vtable")
     return {
         "obj": draw(vec_obj(d, kinds=kinds)),
-        "bounds": draw(bounds_st(d)),
+        "bounds": draw(bounds_st(d, fixed_pct=0)),
         "minimize": not _chance(draw, 50),
         "callable": draw(CALLABLE),
         "max_iter": max_iter,
@@ -1489,7 +1582,7 @@ def run_bayes(desc, ctx):
         res = ctx.call(
             bayesian_opt,
             objective,
-            list(bounds),
+            bounds,
             minimize=minimize,
             max_iter=desc["max_iter"],
             n_initial=desc["n_initial"],
@@ -1541,9 +1634,9 @@ def run_powell(desc, ctx):
         res = ctx.call(
             powell,
             objective,
-            list(x0),
+            x0,
             minimize=minimize,
-            bounds=list(bounds) if bounds else None,
+            bounds=bounds if bounds else None,
             max_iter=desc["max_iter"],
             tol=desc["tol"],
             on_progress=cb,
@@ -1584,9 +1677,9 @@ def run_bfgs(desc, ctx):
         cb, interval, ps = mk_progress(desc["progress"])
         kw = dict(minimize=minimize, objective_fn=objective, max_iter=desc["max_iter"], tol=desc["tol"], on_progress=cb, progress_interval=interval)
         if name == "lbfgs":
-            res = ctx.call(lbfgs, grad, list(x0), m=desc["m"], **kw)
+            res = ctx.call(lbfgs, grad, x0, m=desc["m"], **kw)
         else:
-            res = ctx.call(bfgs, grad, list(x0), **kw)
+            res = ctx.call(bfgs, grad, x0, **kw)
         return res, ps
 
     ctx.label(desc["obj"].get("gscale", 1.0) != 1.0 and "inexact-gradient")
